@@ -10,7 +10,7 @@ From KV Require Export Bytes Engine.
 From KV.gen Require Import Consts.
 Open Scope N_scope.
 
-Definition block := list sentry.
+Notation block := (list sentry) (only parsing).
 
 (* ---------- writer: which entries go into which data block ---------- *)
 
@@ -100,8 +100,8 @@ Definition bi_next (ks : list bytes) (it : biter) : biter * bool :=
    one; t_hasf = Reader.hasBloomFilter *)
 Record table := mkT { t_blocks : list block; t_hasf : bool; t_filter : nat -> option (bytes -> bool) }.
 
-Definition first_key (b : block) : bytes := match b with e :: _ => sk e | [] => [] end.
-Definition ikeys (tb : table) : list bytes := map first_key (t_blocks tb).
+Definition bfirst (b : block) : bytes := match b with e :: _ => sk e | [] => [] end.
+Definition ikeys (tb : table) : list bytes := map bfirst (t_blocks tb).
 Definition bkeys (tb : table) (j : nat) : list bytes := map sk (nth j (t_blocks tb) []).
 
 (* what the writer produces; fh b = membership test of the filter built from the keys of b *)
